@@ -51,7 +51,7 @@ static int32_t s_accept(qb_ipcs_connection_t *c, uid_t u, gid_t g) { (void)c; (v
 static void s_created(qb_ipcs_connection_t *c) { SC = c; }
 static int32_t s_closed(qb_ipcs_connection_t *c) { (void)c; return 0; }
 static void s_destroyed(qb_ipcs_connection_t *c) { if (c == SC) SC = NULL; }
-static int tail_phase, phaseA_rounds = 12;
+static int tail_phase, phaseA_rounds = 12, client_bursting, server_fc_on;
 static int32_t s_msg(qb_ipcs_connection_t *c, void *data, size_t size)
 {
 	int beh;
@@ -62,7 +62,8 @@ static int32_t s_msg(qb_ipcs_connection_t *c, void *data, size_t size)
 	}
 	check_payload(data, size, &RQ[rqh], 1, "message callback");
 	vp_log("  S: msg_process(request #%d, %zu bytes)", RQ[rqh].seq, size);
-	beh = drain_phase ? 1 : vp_choose(3, "msg_process behaviour");
+	/* burst requests (their own length) are just consumed: a behaviour choice per message would be 3^8 */
+	beh = (drain_phase || size == HDR + 4) ? 1 : vp_choose(3, "msg_process behaviour");
 	if (beh == 0) {
 		/* answer now with an echo of the same length */
 		ssize_t r;
@@ -88,6 +89,9 @@ static void server_turn(void)
 	int c;
 	if (drain_phase) { if (drain_phase == 1) { qb_ipcs_request_rate_limit(SV, QB_IPCS_RATE_NORMAL); drain_phase = 2; } return; }
 	if (!SC || sactions_left <= 0 || !(W_free_choices || tail_phase)) return;
+	/* while the client is inside its request burst (possibly retrying on a full socket) the application does not act: switching
+	   flow control on under a client that is already retrying makes the client spin until it is switched off again */
+	if (client_bursting) return;
 	c = vp_choose(1 + 3 + 4 + (W_small_bufs ? 1 : 0), "server action");
 	if (c == 0) return;
 	sactions_left--;
@@ -104,6 +108,7 @@ static void server_turn(void)
 	} else if (c <= 7) {
 		static const enum qb_ipcs_rate_limit rl[] = { QB_IPCS_RATE_OFF, QB_IPCS_RATE_OFF_2, QB_IPCS_RATE_NORMAL, QB_IPCS_RATE_FAST };
 		qb_ipcs_request_rate_limit(SV, rl[c - 4]);
+		server_fc_on = c - 4 < 2;
 		vp_log("  S: rate_limit(%d)", rl[c - 4]);
 	} else {
 		/* burst of small events: fills a minimum-size notification socket */
@@ -155,7 +160,30 @@ static void client_main(void *arg)
 	for (step = 0; step < cdepth; step++) {
 		int c;
 		vp_yield_free("client op boundary");
-		c = vp_choose(5 + 1 + 3, "client op");
+		c = vp_choose(5 + 1 + 3 + (W_small_bufs ? 1 : 0), "client op");
+		if (c == 9) {
+			/* burst of small requests: fills a minimum-size notification socket while the server is not reading */
+			int k;
+			/* against a server that has switched its request side off the client would (by design) retry until it is switched
+			   on again, which nobody does during the burst: not a history that ends */
+			if (server_fc_on) { vp_pruned(); vp_co_abort(); }
+			client_bursting = 1;
+			/* one canonical schedule inside the burst (the server runs whenever the client has to wait) */
+			W_free_choices = 0; vp_blocked_switch_cost = 1;
+			for (k = 0; k < 8; k++) {
+				struct iovec iov[2]; int seq = ++seqctr; ssize_t r;
+				fill(big, HDR + 4, seq, 1);
+				iov[0].iov_base = big; iov[0].iov_len = HDR; iov[1].iov_base = big + HDR; iov[1].iov_len = 4;
+				if_begin(&IF_RQ, seq, HDR + 4);
+				r = qb_ipcc_sendv(CC, iov, 2);
+				vp_log("  C: burst sendv(#%d, %zu) = %zd", seq, (size_t)HDR + 4, r);
+				if (r >= 0 && r != (ssize_t)(HDR + 4)) vp_fail("sendv of %zu bytes returned %zd", (size_t)HDR + 4, r);
+				if (if_end(&IF_RQ, r, "sendv")) { RQ[rqt] = IF_RQ.m; rqt++; }
+			}
+			client_bursting = 0;
+			W_free_choices = 1; vp_blocked_switch_cost = 0;
+			continue;
+		}
 		if (c < 6) {
 			size_t lens[5] = { HDR, HDR + 1, 1000, maxmsg, maxmsg + 1 };
 			size_t len = c < 5 ? lens[c] : 1000;
@@ -222,7 +250,7 @@ static void run(void)
 					      .connection_closed = s_closed, .connection_destroyed = s_destroyed };
 	world_init_sched();
 	vp_blocked_switch_cost = 0;
-	rqh = rqt = rsh = rst = evh = evt = seqctr = client_done = drain_phase = tail_phase = 0; SC = NULL; CC = NULL;
+	rqh = rqt = rsh = rst = evh = evt = seqctr = client_done = drain_phase = tail_phase = client_bursting = server_fc_on = 0; SC = NULL; CC = NULL;
 	memset(&IF_RQ, 0, sizeof IF_RQ); memset(&IF_RS, 0, sizeof IF_RS); memset(&IF_EV, 0, sizeof IF_EV);
 	sactions_left = sactions_max;
 	transport = vp_choose(2, "transport");
